@@ -34,6 +34,7 @@ func runC22(w *World, r *Report) {
 	r.Rule("R-C22-3", "the verification-key function returns a key only for asymmetric signing methods (type-switch cases within the allowed set, erroring default)", 2)
 	r.Rule("R-C22-4", "no call of jwt ParseUnverified anywhere in the repository", 1)
 	c22RevocationAcknowledged(w, r)
+	c22KeySetReplaced(w, r)
 
 	op := w.pkg("internal/server/oauth")
 	if op == nil {
